@@ -218,6 +218,9 @@ class Analyzer:
                 top = p
             elif pk == 'call' and p.get('op') == '()' and _is(p.get('obj'), top) and any(c in (p.get('f') or '') for c in ELEM_CLASSES):
                 top, elem = p, True
+                ix = [unwrap(a) for a in p.get('a', [])]
+                # M(i, i) touches only the diagonal, M(0, j) only one row: not an initialisation of the 2-D array
+                self._lit_index = (len(ix) == 2 and show(ix[0]) == show(ix[1])) or any(a is not None and a['k'] == 'lit' for a in ix)
             elif pk == 'call' and (p.get('f') in ALIAS_FUNCS or (p.get('f') or '').endswith('reinterpret_as_rhs')) and any(_is(a, top) for a in p.get('a', [])):
                 top = p
             elif pk == 'bin' and p['op'] in ('+', '-') and _is(p.get('x'), top) and _pointerish(f, top):
